@@ -1,6 +1,6 @@
 (* Extraction of every executable Model and Spec entry point.  ExtrOcamlBasic only. *)
 From Coq Require Import Extraction ExtrOcamlBasic.
-From SA Require Import Base.Prelude Solr.MM Solr.MM_Spec Kernels.Intersect Kernels.Linear Kernels.Spec Codec.Codec Codec.Codec_Spec Index.Index Index.Index_Spec Query.Phrase Query.Phrase_Spec.
+From SA Require Import Base.Prelude Solr.MM Solr.MM_Spec Kernels.Intersect Kernels.Linear Kernels.Spec Codec.Codec Codec.Codec_Spec Index.Index Index.Index_Spec Query.Phrase Query.Phrase_Spec Score.BM25 Score.Score.
 Extraction "samodel.ml"
   mm_f64 solr_mm
   intersect_drop intersect_keep adjacent intersect_with_adjacents lowbit
@@ -12,4 +12,5 @@ Extraction "samodel.ml"
   encode_spec group_by_key counts_spec keys_spec slice_spec boundaries_spec
   index termfreqs docfreq doclengths corpus_size total_len positions
   tf_spec df_spec lens_spec total_spec positions_spec
-  phrase_freqs choose_strategy get_all_posts phrase_spec phrase_nonoverlap_spec no_adjacent_repeat.
+  phrase_freqs choose_strategy get_all_posts phrase_spec phrase_nonoverlap_spec no_adjacent_repeat
+  score_bm25 score_args kernel_bits score_bits.
